@@ -8,8 +8,8 @@
    and projects the summary from the final states; an unreplayable log gives [v_bad] (a mismatch).
    [verdict_lifecycle] judges the observed log + summary against the text of C17 directly, without
    the LTS.
-   Serving the same Server value a second time (stream lifecycle_reserve) is covered by that verdict
-   only, not by the LTS: see [run_reserve]. *)
+   Serving the same Server value a second time (stream lifecycle_reserve) is a step of the LTS too
+   (LReServe); see [run_reserve]. *)
 Require Import MB.GoSem MB.Val MB.Entry MB.LifecycleModel.
 From Coq Require Import String.
 Notation length := List.length (only parsing).
@@ -56,7 +56,7 @@ Definition enc_sdpc (p : sdpc) : list Z :=
   end.
 Definition enc_state (s : state) : list Z :=
   [zb (lis_set s); zb (lis_open s); zb (shut s); zb (cancelled s); zb (sd_req s); zb (sd_err s); zb (mu s);
-   count s; zb (crashed s); zn (errs s); zn (length (conns s))]
+   count s; zb (crashed s); zn (errs s); zn (upto s); zn (length (conns s))]
   ++ enc_spc (sp s) ++ enc_sdpc (sd s) ++ flat_map enc_conn (conns s).
 
 Fixpoint zlist_eqb (a b : list Z) : bool :=
@@ -72,7 +72,7 @@ Definition enc_obs (o : obs) : list Z :=
   | OServeReturn e => [5; enc_err e] | ORead c r => [6; zn c; enc_rres r] | OHandlerStart c => [7; zn c]
   | OHandlerEnd c ok => [8; zn c; zb ok] | OWrite c ok => [9; zn c; zb ok] | OErrCb => [10]
   | OCloseCb c b => [11; zn c; zb b] | OSdCall => [12] | OSdReturn e => [13; enc_err e] | OCancel => [14]
-  | ODefLog => [17]
+  | ODefLog => [17] | OReServe => [18]
   end.
 Definition obs_eqb (a b : obs) : bool := zlist_eqb (enc_obs a) (enc_obs b).
 
@@ -119,6 +119,7 @@ Definition obs_cands (n : nat) (o : obs) : list label :=
   | OSdCall => [LSdCall]
   | OSdReturn _ => [LSdReturn; LSdTimeout; LSdBegin]
   | OCancel => [LCancel]
+  | OReServe => [LReServe]
   end.
 
 Inductive event :=
@@ -148,6 +149,7 @@ Definition parse_event (v : val) : option event :=
       else if code =? 15 then Some (EClientRecv cn (Z.to_nat a))
       else if code =? 16 then Some (EClientClosed cn)
       else if code =? 17 then Some (EObs ODefLog)
+      else if code =? 18 then Some (EObs OReServe)
       else None
   | _ => None
   end.
@@ -492,15 +494,12 @@ Definition verdict_flood_C17 (a : list val) (o : val) : N :=
 
 (* Stream lifecycle_reserve: the SAME Server value served a second time (first Serve ended by cancelling
    its context while one of its connections is still alive; Serve again on a new listener; Shutdown).
-   The LTS models ONE call of serve, so re-serve is NOT covered by the LTS (nor by the theorems of
-   Properties/C17.v): the model side accepts the observed summary as it is (5th argument), and the run
-   is judged by the executable statement of C17 alone -- [verdict_lifecycle_C17] on the observed log:
-   a Shutdown that returned nil (or the listener's close error) has closed every connection Accept had
-   returned, whichever Serve call accepted it; no started handler is left without its reply; Serve
-   returned ErrServerClosed within the bound; accept-callback counts are exact; close callbacks once. *)
+   Serving again is a step of the LTS (LReServe, logged as event 18): the log is replayed through the
+   validator like every other run, and judged by [verdict_lifecycle_C17].  (The 5th argument repeats the
+   observed summary; it is not used.) *)
 Definition run_reserve (a : list val) : val :=
   match a with
-  | [_; _; _; _; sm] => v_ok [sm]
+  | [k; s; e; _; _] => run_lifecycle [k; s; e]
   | _ => v_bad
   end.
 Definition verdict_reserve_C17 (a : list val) (o : val) : N :=
